@@ -14,14 +14,9 @@ Proof. vm_compute. reflexivity. Qed.
 Lemma ob_listener_accept_calls_nothing : listener_accept_calls = [].
 Proof. vm_compute. reflexivity. Qed.
 
-(* the PROXY header is awaited (first header-reading call) before the handshake / request
-   timers of the connection are started, i.e. its timer never runs concurrently with them *)
-Lemma ob_pp_first_touch_is_early : pp_early = true.
+(* the first header-reading call on a PROXY-protocol connection is not made in the accept loop *)
+Lemma ob_pp_first_touch_not_in_accept_loop : pp_touch_accept = false.
 Proof. vm_compute. reflexivity. Qed.
-
-(* ... and that first call is made inside the per-connection goroutine *)
-Lemma ob_pp_first_touch_in_goroutine : pp_touch_accept = false /\ pp_touch_goroutine = true.
-Proof. vm_compute. split; reflexivity. Qed.
 
 (* readRequest arms its deadlines in the transcribed order *)
 Lemma ob_read_request_prog :
